@@ -1386,7 +1386,7 @@ Qed.
 Definition num_range (v : tokv) : Prop :=
   match v with
   | Int i => min_int64 <= i <= max_int64
-  | Uint u => 0 <= u <= max_uint64
+  | Uint u => max_int64 < u <= max_uint64
   | Flt b => 0 <= b < 18446744073709551616
   | _ => False
   end.
@@ -1434,7 +1434,7 @@ Fixpoint jshape (n : tnode) : Prop :=
     | VByt _ => False
     | VStr s => bytes_ok s
     | VInt i => min_int64 <= i <= max_int64
-    | VUint u => 0 <= u <= max_uint64
+    | VUint u => max_int64 < u <= max_uint64
     | VFlt b => 0 <= b < 18446744073709551616
     | VArr d items => d = -1 /\ fold_right (fun x acc => jshape x /\ acc) True items
     | VMap d es => d = -1 /\
@@ -1968,8 +1968,150 @@ Section ToJson.
       apply (jdec_complete fuel). apply strict_implies_lenient. exact Hpj.
     - exists n. split; [exact Hp|]. split; [reflexivity|]. exists fuel. rewrite <- top_tail_jtail. exact Hpj.
   Qed.
+
+  (* ---------- 5. round trips ------------------------------------------------ *)
+
+  (* CBOR -> JSON -> CBOR *)
+  Theorem pump_roundtrip_cjc : forall o c c' bs toks rest a,
+    ws_opts o -> bytes_ok bs -> dec_run c bs = DOk toks rest a ->
+    Forall jtok_ok toks -> json_keys_ok toks = true ->
+    str_cap_ok (map jnorm_tok toks) = true ->
+    exists j out2,
+      pump_c2j sh o c bs = PumpOk j rest /\
+      pump_j2c j = PumpOk out2 (jtail o toks) /\
+      forall tail, exists a',
+        dec_run c' (out2 ++ tail) = DOk (map canon_tok (map jnorm_tok toks)) tail a'.
+  Proof.
+    intros o c c' bs toks rest a Ho Hb H Ht Hk Hcap.
+    destruct (pump_c2j_value o c bs toks rest a Ho Hb H Ht Hk) as (j & Hp & Hjd & _).
+    destruct (pump_j2c_value c' j _ _ Hjd Hcap) as (out2 & Hp2 & Htail & _).
+    exists j, out2. auto.
+  Qed.
+
+  Lemma jtail_canon o ts : jtail o (map canon_tok ts) = jtail o ts.
+  Proof.
+    destruct ts as [|[v tg] ts]; [reflexivity|]. cbn [map jtail]. unfold canon_tok. cbn [tv tag].
+    destruct v; try reflexivity. destruct (0 <=? i); reflexivity.
+  Qed.
+
+  Lemma json_ok_canon n : jshape n -> Forall jtok_ok (flatten n) -> json_ok float_ok (canon n).
+  Proof.
+    induction n as [tg v Hleaf|tg d items IH|tg d es IH] using tnode_ind'; intros Hs Ht.
+    - destruct Hs as [_ Hv]. unfold min_int64, max_int64, max_uint64 in *.
+      destruct v; try contradiction; cbn [canon json_ok]; cbn [flatten] in Ht;
+        inversion Ht as [|? ? Ht1 _]; subst; unfold jtok_ok in Ht1; cbn [tv] in Ht1; auto; try lia.
+      destruct (Z.leb_spec 0 i); cbn [json_ok]; unfold min_int64, max_int64, max_uint64; lia.
+    - destruct Hs as (_ & _ & Hitems). apply fold_pair_Forall in Hitems.
+      cbn [flatten] in Ht. inversion Ht as [|? ? _ Ht']; subst.
+      apply Forall_app in Ht'. destruct Ht' as [Ht' _]. apply Forall_flat_map in Ht'.
+      rewrite canon_arr. cbn [json_ok]. apply fold_pair_Forall.
+      clear -IH Hitems Ht'.
+      induction IH as [|x xs Hx _ IHxs]; [constructor|].
+      inversion Hitems; inversion Ht'; subst. cbn [map]. constructor; auto.
+    - destruct Hs as (_ & _ & Hes). apply (fold_pair_Forall jentry) in Hes.
+      cbn [flatten] in Ht. inversion Ht as [|? ? _ Ht']; subst.
+      apply Forall_app in Ht'. destruct Ht' as [Ht' _]. apply Forall_flat_map in Ht'.
+      rewrite canon_map. cbn [json_ok].
+      apply (fold_pair_Forall (fun kv => match fst kv with Node _ (VStr k) => bytes_ok k | _ => False end
+                                         /\ json_ok float_ok (snd kv))).
+      clear -IH Hes Ht'.
+      induction IH as [|[k w] xs [Hk Hw] _ IHxs]; [constructor|].
+      inversion Hes as [|? ? [(s & Ek & Bk) Sw] Hes']; inversion Ht' as [|? ? Tkw Ht'']; subst.
+      cbn [fst snd] in *. apply Forall_app in Tkw. destruct Tkw as [_ Tw]. subst k.
+      cbn [map]. constructor; [|apply IHxs; assumption].
+      unfold canon_pair. cbn [fst snd canon]. split; [exact Bk|apply Hw; assumption].
+  Qed.
+
+  (* JSON -> CBOR -> JSON *)
+  Theorem pump_roundtrip_jcj : forall o c bs toks rest,
+    ws_opts o -> jdec_run bs = JDOk toks rest -> str_cap_ok toks = true ->
+    Forall jtok_ok toks ->
+    exists cb out2,
+      pump_j2c bs = PumpOk cb rest /\
+      pump_c2j sh o c cb = PumpOk out2 [] /\
+      jdec_run out2 = JDOk (map jnorm_tok (map canon_tok toks)) (jtail o toks).
+  Proof.
+    intros o c bs toks rest Ho H Hcap Ht.
+    destruct (j2c_encodes _ _ _ H) as (n & Hp & -> & Hj & Henc & Hlen & Hrt & Hpump).
+    specialize (Hrt Hcap).
+    destruct (parse_rfc_enc_canon n c [] Henc Hlen Hrt) as [fuel Hf]. rewrite app_nil_r in Hf.
+    destruct (dec_complete fuel c _ _ _ Hf) as [a Ha].
+    pose proof (json_ok_canon n Hj Ht) as Hn.
+    destruct (c2j_core o c _ _ _ _ Ho Ha Hn) as (out2 & Hp2 & Hjd).
+    exists (rfc_enc n), out2. split; [exact Hpump|]. split; [exact Hp2|].
+    rewrite flatten_jnorm in Hjd by exact Hn. rewrite flatten_canon in Hjd.
+    rewrite top_tail_jtail, flatten_canon, jtail_canon in Hjd. exact Hjd.
+  Qed.
+
+  (* ... which is the original token list when the strings are valid UTF-8 and
+     the floats read back as floats *)
+  Definition jstable_tok (t : token) : Prop :=
+    match tv t with Str s => valid_utf8 s = true | Flt b => fnorm b = VFlt b | _ => True end.
+
+  Lemma jcj_fix n : jshape n -> Forall jstable_tok (flatten n) -> jnorm fnorm (canon n) = n.
+  Proof.
+    induction n as [tg v Hleaf|tg d items IH|tg d es IH] using tnode_ind'; intros Hs Ht.
+    - destruct Hs as [-> Hv]. unfold min_int64, max_int64, max_uint64 in *.
+      destruct v; try contradiction; cbn [canon jnorm]; cbn [flatten] in Ht;
+        inversion Ht as [|? ? Ht1 _]; subst; unfold jstable_tok in Ht1; cbn [tv] in Ht1; try reflexivity.
+      + rewrite coerce_valid_utf8 by exact Ht1. reflexivity.
+      + destruct (Z.leb_spec 0 i); cbn [jnorm]; [|reflexivity].
+        unfold max_int64. destruct (Z.leb_spec i 9223372036854775807); [reflexivity|lia].
+      + unfold max_int64. destruct (Z.leb_spec u 9223372036854775807); [lia|reflexivity].
+      + rewrite Ht1. reflexivity.
+    - destruct Hs as (-> & -> & Hitems). apply fold_pair_Forall in Hitems.
+      cbn [flatten] in Ht. inversion Ht as [|? ? _ Ht']; subst.
+      apply Forall_app in Ht'. destruct Ht' as [Ht' _]. apply Forall_flat_map in Ht'.
+      rewrite canon_arr. cbn [jnorm]. f_equal. f_equal.
+      clear -IH Hitems Ht'.
+      induction IH as [|x xs Hx _ IHxs]; [reflexivity|].
+      inversion Hitems; inversion Ht'; subst. cbn [map]. f_equal; auto.
+    - destruct Hs as (-> & -> & Hes). apply (fold_pair_Forall jentry) in Hes.
+      cbn [flatten] in Ht. inversion Ht as [|? ? _ Ht']; subst.
+      apply Forall_app in Ht'. destruct Ht' as [Ht' _]. apply Forall_flat_map in Ht'.
+      rewrite canon_map. cbn [jnorm]. f_equal. f_equal.
+      clear -IH Hes Ht'.
+      induction IH as [|[k w] xs [Hk Hw] _ IHxs]; [reflexivity|].
+      inversion Hes as [|? ? [(s & Ek & Bk) Sw] Hes']; inversion Ht' as [|? ? Tkw Ht'']; subst.
+      cbn [fst snd] in *. apply Forall_app in Tkw. destruct Tkw as [Tk Tw].
+      cbn [map]. f_equal; [|apply IHxs; assumption].
+      unfold canon_pair. cbn [fst snd]. f_equal; [apply Hk|apply Hw]; auto.
+      subst k. cbn [jshape]. auto.
+  Qed.
+
+  Corollary pump_roundtrip_jcj_same : forall o c bs toks rest,
+    ws_opts o -> jdec_run bs = JDOk toks rest -> str_cap_ok toks = true ->
+    Forall jtok_ok toks -> Forall jstable_tok toks ->
+    exists cb out2,
+      pump_j2c bs = PumpOk cb rest /\
+      pump_c2j sh o c cb = PumpOk out2 [] /\
+      jdec_run out2 = JDOk toks (jtail o toks).
+  Proof.
+    intros o c bs toks rest Ho H Hcap Ht Hst.
+    destruct (pump_roundtrip_jcj o c bs toks rest Ho H Hcap Ht) as (cb & out2 & Hp1 & Hp2 & Hjd).
+    exists cb, out2. split; [exact Hp1|]. split; [exact Hp2|].
+    destruct (j2c_encodes _ _ _ H) as (n & _ & -> & Hj & _).
+    pose proof (json_ok_canon n Hj Ht) as Hn.
+    rewrite <- flatten_canon, <- flatten_jnorm in Hjd by exact Hn.
+    rewrite (jcj_fix n Hj Hst) in Hjd. exact Hjd.
+  Qed.
 End ToJson.
+
+(* "the same tokens as the original JSON text" is false in general: a float
+   with an integral value is written as an integer text.  (Here the oracle is
+   the true shortest-digits answer for 1.0: digits "1", decimal point after 1.) *)
+Example pump_roundtrip_jcj_same_refuted :
+  let sh := fun _ : Z => ([1], 1) in
+  let o := JOpts None [] in
+  jdec_run [49; 46; 48] = JDOk [Tok (Flt 4607182418800017408) None] [] /\
+  pump_j2c [49; 46; 48] = PumpOk [251; 63; 240; 0; 0; 0; 0; 0; 0] [] /\
+  pump_c2j sh o false [251; 63; 240; 0; 0; 0; 0; 0; 0] = PumpOk [49] [] /\
+  jdec_run [49] = JDOk [Tok (Int 1) None] [].
+Proof. vm_compute. repeat split; reflexivity. Qed.
 
 Print Assumptions pump_c2j_unrepresentable.
 Print Assumptions pump_c2j_ok_iff.
 Print Assumptions pump_c2j_value.
+Print Assumptions pump_roundtrip_cjc.
+Print Assumptions pump_roundtrip_jcj.
+Print Assumptions pump_roundtrip_jcj_same.
